@@ -37,7 +37,7 @@ from sim.harness import draw_knobs, Discard
 
 ID = "C16"
 LEVEL = "exploration"
-RUNS = {"quick": 2500, "thorough": 36000}
+RUNS = {"quick": 2500, "thorough": 45000}
 WALL_CAP = {"quick": 120, "thorough": 3000}
 RULE = ("one case = 2-5 generated template expressions (<= 12 nodes: arithmetic, comparison, all-operand boolean, "
         "conditional, tuple, attribute and index access over 2-4 machine/player/settings/device variables) "
